@@ -10,6 +10,7 @@ DeleteSheet / SetSheetVisible / SetSheetName / MoveSheet, the template workbook)
 including rejected ones; `run init ops` is the state after the history on a `NewFile`.
 -/
 import XlModel.Lemmas.Sheets10
+import XlModel.SheetsCalc
 
 namespace XlModel.Props.C16
 open XlModel XlModel.Sheets
@@ -428,6 +429,56 @@ theorem rename_text_example :
     adjustRange (bytesOf "'x.y'!$A$1,'my sheet'!$A$1:'my sheet'!$B$2,x.y!C3,x.yz!C3") (bytesOf "x.y") (bytesOf "a_n") =
       bytesOf "'a_n'!$A$1,'my sheet'!$A$1:'my sheet'!$B$2,a_n!C3,x.yz!C3" := by
   decide +kernel
+
+/-! ## calculation chain (round 5, second wave): `deleteCalcChain` as `DeleteSheet` calls it
+(`XlModel.SheetsCalc`, transcript op `calc`) -/
+
+/-- `deleteCalcChain(sheetID, "")` removes exactly the entries of that sheet: with non-empty cell references
+the result is the sub-list of the entries of the other sheets, in their order -/
+theorem calcchain_delete_sheet (cs : List CalcC) (id : Nat) (hr : ∀ c ∈ cs, c.r ≠ []) :
+    deleteCalcChain cs id [] = cs.filter (fun c => c.i != id) := by
+  unfold deleteCalcChain
+  apply List.filter_congr
+  intro c hc
+  have hne : c.r ≠ [] := hr c hc
+  have hre : (c.r == ([] : Name)) = false := by simpa using hne
+  by_cases hi : c.i = id
+  · simp [hi]
+  · have h1 : (c.i == id) = false := by simpa using hi
+    have h2 : (c.i != id) = true := by simpa using hi
+    rw [h1, h2, hre]; simp
+
+/-- clause "remaining indices stay consistent": when `DeleteSheet` removes the sheet `v` (any state satisfying
+the list invariant, hence after any history), no remaining calcChain entry refers to `v`, every remaining entry
+still refers to a listed sheet id, and every entry of another sheet is kept -/
+theorem calcchain_consistent_after_delete (s s' : St) (n : Name) (h : deleteSheet s n = .ok s')
+    (hi : Sheets.Inv s) (cs : List CalcC) (hr : ∀ c ∈ cs, c.r ≠ [])
+    (hcs : ∀ c ∈ cs, c.i ∈ s.sheets.map (·.id)) :
+    s' = s ∨ ∃ idx v, s.sheets[idx]? = some v ∧ s'.sheets = s.sheets.eraseIdx idx ∧
+      (∀ c ∈ deleteCalcChain cs v.id [], c.i ≠ v.id ∧ c.i ∈ s'.sheets.map (·.id)) ∧
+      (∀ c ∈ cs, c.i ≠ v.id → c ∈ deleteCalcChain cs v.id []) := by
+  rcases list_delete s s' n h hi with h0 | ⟨idx, v, hv, _, hs, _⟩
+  · exact Or.inl h0
+  · refine Or.inr ⟨idx, v, hv, hs, ?_, ?_⟩
+    · intro c hc
+      rw [calcchain_delete_sheet cs v.id hr, List.mem_filter] at hc
+      obtain ⟨hm, hne⟩ := hc
+      have hne' : c.i ≠ v.id := by simpa using hne
+      refine ⟨hne', ?_⟩
+      obtain ⟨y, hy, hyi⟩ := List.mem_map.mp (hcs c hm)
+      obtain ⟨j, hj⟩ := List.getElem?_of_mem hy
+      rw [hs]
+      refine List.mem_map.mpr ⟨y, ?_, hyi⟩
+      rw [List.mem_eraseIdx_iff_getElem?]
+      refine ⟨j, ?_, hj⟩
+      intro e
+      subst e
+      rw [hv] at hj
+      cases hj
+      exact hne' hyi.symm
+    · intro c hc hne
+      rw [calcchain_delete_sheet cs v.id hr, List.mem_filter]
+      exact ⟨hc, by simpa using hne⟩
 
 /-! ## clause "the content of sheets not targeted by an operation is unchanged": frame theorem over the
 per-sheet content token; opened workbooks: every theorem from ANY consistent state -/
